@@ -531,6 +531,30 @@ where
                     go(rec, st, token_string::<B, P>(&q, f), &km.unseal, &aad, true, json!({"cls":"bitflip","field":"payload","pos":i,"bit":b}));
                 }
             }
+            // 1b. the same bit flipped in two bytes of the tag / signature, and the tag bytes permuted
+            if p.len() >= tlen && tlen >= 2 {
+                let t0 = p.len() - tlen;
+                for b in 0..8u8 {
+                    for (i, j) in [(0usize, 1usize), (0, tlen - 1), (tlen / 2, tlen / 2 + 1)] {
+                        if i == j || j >= tlen {
+                            continue;
+                        }
+                        let mut q = p.clone();
+                        q[t0 + i] ^= 1 << b;
+                        q[t0 + j] ^= 1 << b;
+                        go(rec, st, token_string::<B, P>(&q, f), &km.unseal, &aad, true, json!({"cls":"tag-two-bytes-same-bit","bit":b,"i":i,"j":j}));
+                    }
+                }
+                let mut q = p.clone();
+                q[t0..].reverse();
+                go(rec, st, token_string::<B, P>(&q, f), &km.unseal, &aad, true, json!({"cls":"tag-permuted","how":"reversed"}));
+                let mut q = p.clone();
+                q[t0..].rotate_left(1);
+                go(rec, st, token_string::<B, P>(&q, f), &km.unseal, &aad, true, json!({"cls":"tag-permuted","how":"rotated"}));
+                let mut q = p.clone();
+                q[t0..].swap(0, 1);
+                go(rec, st, token_string::<B, P>(&q, f), &km.unseal, &aad, true, json!({"cls":"tag-permuted","how":"swapped"}));
+            }
             // 2. bit flips in the footer
             for i in 0..f.len() {
                 for b in 0..8u8 {
